@@ -18,7 +18,7 @@ Definition lwt (ls : locals) : Prop := Forall (fun nb => match snd nb with LCons
 Section Ev.
 Variable re : string -> string -> option bool.
 Variable cfg : config.
-Hypothesis Hhook : hook cfg = None.
+Hypothesis Hhook : hook_ok cfg.
 Hypothesis Hunk : match unknown cfg with Some u => rwt u | None => True end.
 
 Lemma resolve_locals_wt ls : lwt ls -> forall path,
@@ -138,10 +138,15 @@ Qed.
 End Ev.
 
 (* C09 on the repaired model *)
+Theorem c09_no_panic_hook re cfg e d :
+  hook_ok cfg -> (match unknown cfg with Some u => rwt u | None => True end) ->
+  wf_ast e -> rwt d -> eval re cfg [] e d <> Panic.
+Proof. intros Hh Hu Hw Hd. apply eval_np; auto. constructor. Qed.
+
 Theorem c09_no_panic re cfg e d :
   hook cfg = None -> (match unknown cfg with Some u => rwt u | None => True end) ->
   wf_ast e -> rwt d -> eval re cfg [] e d <> Panic.
-Proof. intros Hh Hu Hw Hd. apply eval_np; auto. constructor. Qed.
+Proof. intros Hh. apply c09_no_panic_hook. apply hook_none_ok. exact Hh. Qed.
 
 Theorem c09_error_false re cfg e d b c : eval re cfg [] e d = Out b (Some c) -> b = false.
 Proof. intros H. pose proof (eval_errfalse re cfg e [] d) as He. rewrite H in He. exact He. Qed.
